@@ -252,9 +252,8 @@ theorem resume_from (me : Nat) (n n' : Node) (b : Block) (rest : List Block) (l1
   rw [hreg] at r1 w1
   -- the handler steps of the whole run start with those of block b
   obtain ⟨t2, ht⟩ : ∃ t2, runMacrosL me n.reg (b :: rest) = l1 ++ (r ++ t2) := by
-    exact ⟨(match (regBlock me n.reg b).2 with
-             | .ok => runMacrosL me (regBlock me n.reg b).1 rest
-             | _ => []), by simp only [runMacrosL, hL, List.append_assoc]⟩
+    simp only [runMacrosL, hL]
+    exact ⟨_, List.append_assoc _ _ _⟩
   have hhand := runMacrosL_handler me n.reg (b :: rest)
   rw [ht] at w1 w2 hhand
   refine ⟨by rw [r1.2, r2.2], by rw [r1.1, r2.1], ?_, ?_, ?_⟩
@@ -310,5 +309,116 @@ theorem resumeList_next (x : Node) (b : Block) (rest : List Block) (hm : x.reg.d
   rw [List.filter_eq_self]
   intro c hc
   have := hv2 c hc; simp; omega
+
+
+/-! ## the fault theorem -/
+
+theorem runMacro_db (n : Node) (l : List Step) (hl : ∀ s ∈ l, s.handler = true) : (runMacro n l).reg.db = n.reg.db := by
+  rw [runMacro_reg]; exact (foldl_stepReg_handler_db n.reg l hl).1
+
+/-- A block that does not panic is interrupted by a crash or a failing write at write index `k` (anywhere: inside
+    the transaction, inside a key-manager call, inside the decided-history cleanup, at the marker write, at the
+    commit), the node restarts on what survived and resumes from the stored marker + 1. Unless the fault fell between
+    the account record and the wallet index of an AddShare, the stream ends exactly where the uninterrupted run ends. -/
+theorem fault_resume (me : Nat) (n : Node) (b : Block) (rest : List Block) (kind : FaultKind) (k : Nat)
+    (hk : kind ≠ .retry) (hB : Boundary n) (hS : Sane n.wal)
+    (hown : ∀ o ∈ n.reg.db.ops, o.pk = me → o.id = n.reg.self)
+    (hhas : n.reg.self ≠ 0 → ∃ o ∈ n.reg.db.ops, o.id = n.reg.self ∧ o.pk = me)
+    (hnp : (regEvents me b.number (beginReg n.reg) b.events).2 = false)
+    (hv1 : n.reg.db.marker.getD 0 < b.number) (hv2 : ∀ c ∈ rest, b.number < c.number)
+    (hgood : (faultBlock me n b kind k).2 ≠ .faultedBad) :
+    SameOutcome (faultRun me n b rest kind k) (run me n (b :: rest)) := by
+  have hafter : ∀ x, afterFault me kind x = restart me x := by
+    intro x; cases kind <;> first | rfl | exact absurd rfl hk
+  have hinf : inferior n b = false := by simp [inferior]; omega
+  have hinf' : decide (n.reg.db.marker.getD 0 ≥ b.number) = false := by simp; omega
+  have hbm : blockMacros me n.reg b = eventsMacros me b.number (beginReg n.reg) b.events := by
+    simp [blockMacros, hinf']
+  have hLh := eventsMacros_handler me b.number (beginReg n.reg) b.events
+  obtain ⟨e1, e2, e3⟩ := runEventsBudget_eq me b.number (beginTxn n) b.events k
+  have hbr : (beginTxn n).reg = beginReg n.reg := rfl
+  rw [hbr] at e1 e2 e3
+  simp only [faultRun, faultBlock, hinf, Bool.false_eq_true, ↓reduceIte] at hgood ⊢
+  generalize hr : runEventsBudget me b.number (beginTxn n) b.events k = res at e1 e2 e3 hgood ⊢
+  obtain ⟨n1, c, p⟩ := res
+  simp only at e1 e2 e3 hgood ⊢
+  -- restart on a state whose committed registry is the one before the block
+  have resume : ∀ (x : Node) (l1 r : List Step), eventsMacros me b.number (beginReg n.reg) b.events = l1 ++ r →
+      x.reg.db = n.reg.db → Sane (rebootWal x.wal) →
+      (∀ key, (key ∈ keysOf (rebootWal x.wal) ↔ key ∈ keysOf (walRun n.wal l1)) ∨ some key ∈ r.map Step.kmKey) →
+      x.hist = histRun n.hist l1 →
+      SameOutcome (run me (restart me x) (resumeList (restart me x) (b :: rest))) (run me n (b :: rest)) := by
+    intro x l1 r hl hdb hsx hag hhx
+    have hreg := restart_reg me x n hdb hB hown hhas
+    rw [resumeList_same (restart me x) b rest n.reg.db.marker (by rw [hreg]) hv1 hv2]
+    exact resume_from me n (restart me x) b rest l1 r (hbm.trans hl) hreg hS hsx hag hhx
+  cases c with
+  | bad => exact absurd rfl hgood
+  | clean =>
+    simp only [hafter]
+    have hmb : runMacroBudget (beginTxn n) (eventsMacros me b.number (beginReg n.reg) b.events) k = (n1, .clean) := by
+      rw [Prod.ext_iff]; exact ⟨e1.symm, e2.symm⟩
+    obtain ⟨l1, s, l2, k1, hl, hrb, hcc⟩ := runMacroBudget_cut _ _ _ _ _ hmb (by intro k' h; cases h)
+    have hl1h : ∀ t ∈ l1, t.handler = true := fun t ht => hLh t (by rw [hl]; exact List.mem_append_left _ ht)
+    have hsh : s.handler = true := hLh s (by rw [hl]; simp)
+    have hbad : isBadCut (runMacro (beginTxn n) l1).wal s k1 = false := by
+      cases hh : isBadCut (runMacro (beginTxn n) l1).wal s k1 with
+      | false => rfl
+      | true => simp [hh] at hcc
+    have hmw : (runMacro (beginTxn n) l1).wal = walRun n.wal l1 := runMacro_wal _ _
+    have hmh : (runMacro (beginTxn n) l1).hist = histRun n.hist l1 := runMacro_hist _ _
+    have hmd : (runMacro (beginTxn n) l1).reg.db = n.reg.db := runMacro_db _ _ hl1h
+    have hms : Sane (runMacro (beginTxn n) l1).wal := by rw [hmw]; exact walRun_sane l1 hl1h hS
+    obtain ⟨c1, c2, c3, c4⟩ := cut_step _ s hsh hms k1 n1 hrb hbad
+    refine resume n1 l1 (s :: l2) hl (c2.trans hmd) c3 ?_ (c1.trans hmh)
+    intro key
+    by_cases hkk : s.kmKey = some key
+    · exact Or.inr (by simp [hkk])
+    · exact Or.inl (by rw [c4 key hkk, hmw])
+  | done k1 =>
+    cases p with
+    | true => exact absurd (e3 rfl) (by simp [hnp])
+    | false =>
+      simp only
+      have hn1 : n1 = runMacro (beginTxn n) (eventsMacros me b.number (beginReg n.reg) b.events) :=
+        runMacroBudget_done _ _ k _ k1 (by rw [Prod.ext_iff]; exact ⟨e1.symm, e2.symm⟩)
+      have hmw : n1.wal = walRun n.wal (eventsMacros me b.number (beginReg n.reg) b.events) := by rw [hn1]; exact runMacro_wal _ _
+      have hmh : n1.hist = histRun n.hist (eventsMacros me b.number (beginReg n.reg) b.events) := by rw [hn1]; exact runMacro_hist _ _
+      have hmd : n1.reg.db = n.reg.db := by rw [hn1]; exact runMacro_db _ _ hLh
+      have hms : Sane n1.wal := by rw [hmw]; exact walRun_sane _ hLh hS
+      -- a cut in front of the marker write or in front of the commit: all effects of the events are there
+      have late : ∀ x : Node, x.wal = n1.wal → x.hist = n1.hist → x.reg.db = n1.reg.db →
+          SameOutcome (run me (restart me x) (resumeList (restart me x) (b :: rest))) (run me n (b :: rest)) := by
+        intro x hw hh hd
+        refine resume x _ [] (by simp) (hd.trans hmd) (by rw [hw, rebootWal_of_sane hms]; exact hms) ?_ (hh.trans hmh)
+        intro key
+        exact Or.inl (by rw [hw, rebootWal_of_sane hms, hmw])
+      cases k1 with
+      | zero =>
+        simp only [runBudget, Step.isWrite, ↓reduceIte, hafter]
+        exact late n1 rfl rfl rfl
+      | succ k2 =>
+        cases k2 with
+        | zero =>
+          simp only [runBudget, Step.isWrite, ↓reduceIte, hafter]
+          exact late _ (by simp [applyStep, stepWal]) (by simp [applyStep, stepHist]) (by simp [applyStep, stepReg])
+        | succ k3 =>
+          simp only [runBudget, Step.isWrite, ↓reduceIte]
+          -- the block completed: this IS the uninterrupted block
+          have hre := runEvents_reg me b.number (beginTxn n) b.events
+          rw [hbr] at hre
+          have hne : (runEvents me b.number (beginTxn n) b.events).2.2 = false := by rw [hre.2]; exact hnp
+          have hab : applyBlock me n b = (runSteps n1 [.putMarker b.number, .commit], .ok, (runEvents me b.number (beginTxn n) b.events).2.1) := by
+            simp only [applyBlock, hinf, Bool.false_eq_true, ↓reduceIte, hne]
+            rw [hn1, ← hbr, ← runEvents_eq_runMacro]
+          have hmk : (applyStep (applyStep n1 (.putMarker b.number)) .commit).reg.db.marker = some b.number := by
+            simp [applyStep, stepReg]
+          rw [resumeList_next _ b rest hmk hv2]
+          have : run me n (b :: rest) = run me (applyStep (applyStep n1 (.putMarker b.number)) .commit) rest := by
+            simp only [run, hab]
+            rfl
+          rw [this]
+          refine SameOutcome.refl me _ rest ?_
+          simpa [applyStep, stepWal] using hms
 
 end Ssv.Registry
